@@ -334,6 +334,9 @@ theorem delete_FC (c : Ctx) (hps : PS c) (h : FC c) : OutcomeP FC (opDelete c) :
           exact ((unparent_same _ i).tr (detachChildren_same _ _ _)).size
         rw [this, t1.2]
       have t3 := (addGlyphs_TS (((c.seg.upd i fun sl => sl.setDeleted true).unlink i).detach i) (-1)).1
+      refine FC.congr (c := ((c.moveHighwater (c.seg.get i).next).withSeg
+        ((((c.seg.upd i fun sl => sl.setDeleted true).unlink i).detach i).addGlyphs (-1))).setIs
+          (match (c.seg.get i).prev with | some p => some p | none => c.is)) ?_ (backOnto_seg _ _) (backOnto_smap _ _)
       refine ⟨forest_congr t3 hF2, ?_⟩
       have cf1 := copyFrame_of_treeSame t1.1 t1.2
       have cf2 : CopyFrame ((c.seg.upd i fun sl => sl.setDeleted true).unlink i)
